@@ -923,6 +923,25 @@ def future_accepts_failure(chk, found):
                         if isinstance(up, ast.Try) and any(h.type is None or any(x in util.unparse(h.type) for x in ("TypeError", "Exception", "BaseException")) for h in up.handlers) and any(isinstance(x, ast.Attribute) and x.attr == "set_exception" for h in up.handlers for x in ast.walk(h)):
                             guarded = True
                         up = par.get(id(up))
+                    if guarded and arg in fi.params():
+                        # what a StopIteration is replaced by: interpret the function with exactly that failure -- the
+                        # future must be handed ANOTHER exception that carries the StopIteration as its cause
+                        STOP = exc_value("ext:builtins.StopIteration", "payload")
+                        try:
+                            outs = Interp(prog, fi, decide=lambda it, p, t: False if (t[0] == "call" and t[1][0] == "attr" and t[1][2] == "done") else None).run(env={("sym", arg): STOP})
+                        except Undecided:
+                            outs = []
+                        for o in outs:
+                            sets = [e[1] for e in o.path.events if e[0] == "call" and e[1][1][0] == "attr" and e[1][1][2] == "set_exception"]
+                            for ct in sets:
+                                given = ct[2][0] if ct[2] else None
+                                caused = any(e[0] == "store" and e[1] == ("attr", given, "__cause__") and e[2] == STOP for e in o.path.events) or (is_exc(given) and len(given) > 4 and given[4] == STOP)
+                                if given == STOP or (is_exc(given) and "StopIteration" in given[1]):
+                                    chk.bad(rule, fi.qual, "%s tests the failure for StopIteration but still hands the StopIteration itself to Future.set_exception (%s): the Future refuses it, the failure is lost" % (fi.name, show(given)), node=c, stmt="set_exception still given StopIteration in %s" % fi.name, input="payload raises StopIteration()")
+                                    ok = False
+                                elif not caused:
+                                    chk.bad(rule, fi.qual, "%s replaces a StopIteration by %s without making the StopIteration its cause: run() ends with an error whose cause chain no longer leads to the exception the payload raised" % (fi.name, show(given)), node=c, stmt="StopIteration cause lost in %s" % fi.name, input="payload raises StopIteration()")
+                                    ok = False
                     if not guarded:
                         chk.bad(
                             rule,
